@@ -119,7 +119,10 @@ def cfg_text(spec=None, init=None, next_=None, constants=None, invariants=(), pr
     if constants:
         lines.append("CONSTANTS")
         for k, v in constants.items():
-            lines.append(f"  {k} = {tla_value(v)}")
+            if isinstance(v, str) and v.startswith("<-"):
+                lines.append(f"  {k} <- {v[2:].strip()}")
+            else:
+                lines.append(f"  {k} = {tla_value(v)}")
     if invariants:
         lines.append("INVARIANTS " + " ".join(invariants))
     if properties:
